@@ -6,7 +6,16 @@ func init() {
 	Register(&PropDef{
 		ID: "C02",
 		Profile: func(tier string, r *Rng) Profile {
-			return Profile{Name: "c02-hostile", MinTx: 2, MaxTx: 7, Hostile: 0.25, VoteFault: 0.08, GapBig: 0.08, Gov: true, GovHalt: true}
+			p := Profile{Name: "c02-hostile", MinTx: 2, MaxTx: 7, Equivocate: 0.01, Hostile: 0.25, VoteFault: 0.08, GapBig: 0.08, Gov: true, GovHalt: true}
+			switch r.Pick(4) {
+			case 0: // time-based rewards flowing, two deposit rounds closing together
+				p.Fragments = []string{"mintInit", "depositPair"}
+			case 1:
+				p.Fragments = []string{"mintInit", "depositExpiryTipped"}
+			case 2:
+				p.Fragments = []string{"mintInit"}
+			}
+			return p
 		},
 		Monitors:         func(st *Stats) []Monitor { return []Monitor{NewPhaseStats(st)} },
 		Cases:            tierMap(48, 160),
@@ -19,7 +28,7 @@ func init() {
 	Register(&PropDef{
 		ID: "C05",
 		Profile: func(tier string, r *Rng) Profile {
-			return Profile{Name: "c05-stake", MinTx: 3, MaxTx: 8, Hostile: 0.08, VoteFault: 0.03, GapBig: 0.06, Gov: false,
+			return Profile{Name: "c05-stake", MinTx: 3, MaxTx: 8, Equivocate: 0.02, Hostile: 0.08, VoteFault: 0.03, GapBig: 0.06, Gov: false,
 				W: map[string]float64{"delegate": 7, "undelegate": 5, "redelegate": 3, "cancelUnbond": 1.5, "proposeDispute": 6, "addFee": 4, "vote": 8,
 					"withdrawFeeRefund": 4, "withdrawTip": 5, "createValidator": 1, "privileged": 0.1, "registerSpec": 0.1, "requestAttest": 0.2, "withdrawTokens": 0.3, "claimDeposits": 0.1}}
 		},
@@ -35,7 +44,7 @@ func init() {
 		Profile: func(tier string, r *Rng) Profile {
 			return Profile{Name: "c03-supply", MinTx: 3, MaxTx: 8, Hostile: 0.12, NoFaults: true, GapBig: 0.07, Gov: true,
 				W:         map[string]float64{"govProposal": 2.5, "govVote": 8, "tip": 10, "withdrawTokens": 4, "claimDeposits": 2, "withdrawFeeRefund": 4, "proposeDispute": 4, "vote": 7},
-				Fragments: []string{"mintInit"}}
+				Fragments: c03Fragments(r)}
 		},
 		Monitors: func(st *Stats) []Monitor { return []Monitor{NewC03Monitor(st)} },
 		Cases:    tierMap(48, 160),
@@ -47,12 +56,31 @@ func init() {
 			return Profile{Name: "c04-escrow", MinTx: 3, MaxTx: 8, Hostile: 0.15, VoteFault: 0.02, GapBig: 0.06, Gov: true,
 				W: map[string]float64{"tip": 12, "submit": 22, "withdrawTip": 7, "createReporter": 5, "selectReporter": 6, "switchReporter": 2.5, "delegate": 6, "proposeDispute": 3.5, "vote": 7,
 					"withdrawFeeRefund": 4, "claimReward": 5, "govProposal": 1, "govVote": 4},
-				Fragments: []string{"mintInit"}}
+				Fragments: c04Fragments(r)}
 		},
 		Monitors: func(st *Stats) []Monitor { return []Monitor{NewC04Monitor(st)} },
 		Cases:    tierMap(48, 160),
 		Blocks:   tierMap(300, 600),
 	})
+}
+
+// c03Fragments: minting in every case; a quarter of the cases also claim bridge deposits, incl. hostile report values
+func c03Fragments(r *Rng) []string {
+	if r.Chance(0.25) {
+		return []string{"mintInit", "deposit2", "depositTipAboveAmount", "depositSubUnit"}
+	}
+	return []string{"mintInit"}
+}
+
+// c04Fragments: minting in every case; some cases add deposit rounds that close together or get reports in their last block
+func c04Fragments(r *Rng) []string {
+	switch r.Pick(5) {
+	case 0:
+		return []string{"mintInit", "depositExpiryTipped"}
+	case 1:
+		return []string{"mintInit", "depositPair"}
+	}
+	return []string{"mintInit"}
 }
 
 // c14Fragments: the three well-formed deposits plus two of the hostile ones, chosen per case
@@ -64,7 +92,7 @@ func c14Fragments(r *Rng) []string {
 }
 
 func disputeProfile(name string) Profile {
-	return Profile{Name: name, MinTx: 3, MaxTx: 8, Hostile: 0.12, VoteFault: 0.0, GapBig: 0.10, Gov: false,
+	return Profile{Name: name, MinTx: 3, MaxTx: 8, Hostile: 0.12, VoteFault: 0.0, GapBig: 0.10, Gov: false, Equivocate: 0.01,
 		W: map[string]float64{"proposeDispute": 7, "addFee": 5, "vote": 14, "withdrawFeeRefund": 5, "claimReward": 5, "addEvidence": 1.5, "tip": 8, "submit": 18,
 			"delegate": 5, "undelegate": 3, "redelegate": 2, "selectReporter": 4, "createReporter": 4, "unjailReporter": 3, "privileged": 0.1, "registerSpec": 0.1,
 			"requestAttest": 0.2, "withdrawTokens": 0.3, "claimDeposits": 0.1, "createValidator": 0.3}}
@@ -116,11 +144,19 @@ func init() {
 	Register(&PropDef{ID: "C07", Profile: func(tier string, r *Rng) Profile {
 		p := oracleProfile("c07-rounds")
 		if r.Chance(0.34) {
-			p.Fragments = []string{"depositExpiry"} // reports exactly at the end of a 2000-block deposit window
+			p.Fragments = []string{[]string{"depositExpiry", "depositExpiryTipped"}[r.Pick(2)]} // reports exactly at the end of a 2000-block deposit window
 		}
 		return p
 	},
 		Monitors: func(st *Stats) []Monitor { return []Monitor{NewC07Monitor(st)} }, Cases: tierMap(48, 160), Blocks: tierMap(300, 800), DeathModules: []string{"oracle"}})
+	// C06 on the chain: rounds of median and mode queries closing in the same blocks, judged by the definition
+	Register(&PropDef{ID: "C06chain", Profile: func(tier string, r *Rng) Profile {
+		p := oracleProfile("c06-chain")
+		p.Fragments = []string{"modeSpec", "modeRounds"}
+		p.W["submit"], p.W["tip"] = 40, 18
+		return p
+	},
+		Monitors: func(st *Stats) []Monitor { return []Monitor{NewC06ChainMonitor(st)} }, Cases: tierMap(24, 96), Blocks: tierMap(300, 600), DeathModules: []string{"oracle"}})
 	Register(&PropDef{ID: "C08", Profile: func(tier string, r *Rng) Profile { return oracleProfile("c08-history") },
 		Monitors: func(st *Stats) []Monitor { return []Monitor{NewC08Monitor(st)} }, Cases: tierMap(40, 128), Blocks: tierMap(300, 800)})
 }
@@ -128,7 +164,7 @@ func init() {
 func init() {
 	Register(&PropDef{ID: "C10",
 		Profile: func(tier string, r *Rng) Profile {
-			return Profile{Name: "c10-power", MinTx: 3, MaxTx: 9, Hostile: 0.1, VoteFault: 0.06, GapBig: 0.06, Gov: true,
+			return Profile{Name: "c10-power", MinTx: 3, MaxTx: 9, Equivocate: 0.01, Hostile: 0.1, VoteFault: 0.06, GapBig: 0.06, Gov: true,
 				W: map[string]float64{"submit": 30, "tip": 8, "delegate": 10, "undelegate": 6, "redelegate": 5, "createReporter": 6, "selectReporter": 8, "switchReporter": 12, "removeSelector": 2,
 					"unjailReporter": 4, "proposeDispute": 3, "vote": 3, "createValidator": 1.5, "unjailVal": 1.5, "govProposal": 1, "govVote": 4, "cancelUnbond": 1.5}}
 		},
@@ -183,7 +219,7 @@ func init() {
 		Monitors: func(st *Stats) []Monitor { return []Monitor{NewC18ChainMonitor(st)} }, Cases: tierMap(32, 96), Blocks: tierMap(250, 600)})
 	Register(&PropDef{ID: "C09chain",
 		Profile: func(tier string, r *Rng) Profile {
-			return Profile{Name: "c09-tbr", MinTx: 3, MaxTx: 8, Hostile: 0.1, GapBig: 0.04, Gov: true, Fragments: []string{"mintInit"},
+			return Profile{Name: "c09-tbr", MinTx: 3, MaxTx: 8, Hostile: 0.1, GapBig: 0.04, Gov: true, Fragments: []string{"mintInit", "depositPair"},
 				W: map[string]float64{"submit": 30, "tip": 12, "createReporter": 5, "selectReporter": 6, "delegate": 6, "govVote": 5, "govProposal": 0.6, "registerSpec": 1}}
 		},
 		Monitors: func(st *Stats) []Monitor { return []Monitor{NewC09ChainMonitor(st)} }, Cases: tierMap(32, 96), Blocks: tierMap(250, 600)})
